@@ -18,6 +18,10 @@
    A schedule is therefore: how the entry range was cut into jobs, the order in which the blocks
    reached `object_streams`, and the order in which ids reached `zero_length_streams`.
 
+   For a file whose trailer has Encrypt the tasks leave the object streams alone; the load ends with Document::decrypt_raw, which
+   decrypts every object and then expands the object streams itself -- a second only-add merge, on one thread: see the part
+   "encrypted files" below ([finish], [load_full_seq], [load_full_par]).
+
    The last loop adds a member only when no object of its NUMBER is present (61ef95a, C07).
    `merge_pinned` is the merge as it was before commits f28e935 "fix: object streams are merged in
    cross-reference order" and 44beb46 (blocks flattened in completion order, no regard for the container
